@@ -22,3 +22,14 @@ Proof. exact certified_grammar_terminates. Qed.
 
 Print Assumptions C06_xpath_parse_terminates.
 Print Assumptions C06_certified_grammars_terminate.
+
+(** ** evaluation half: re-exported from Properties/C06eval.v (proofs in Proofs/XPath*.v) *)
+From XmlRs Require Import Model.XPathAst Model.XDoc Model.XPathEval Proofs.XPathNav Proofs.XPathAstPred Properties.C06eval.
+
+Theorem C06_evaluation_never_panics :
+  forall (doc : xdoc) (c : ctx) (e : expr),
+    DocWf doc -> expr_total e = true ->
+    fst (query doc e c) <> Panic /\ fst (query doc e c) <> OutOfFuel.
+Proof. exact C06_query_no_panic. Qed.
+
+Print Assumptions C06_evaluation_never_panics.
